@@ -472,6 +472,83 @@ def _kwonly_selected(f):
     return True
 
 
+def r8_sources_reach_the_command(ctx):
+    """(a) A value set in the configuration file / environment takes effect only through the parser-level defaults, i.e.
+    when its Config field is the `dest` of some command-line option (or is read from the config object directly in
+    main).  A field that is nobody's dest is silently ignored - for that option the file and the environment lose
+    their place in the precedence order.  (b) The handler around reading the configuration file covers the read only:
+    a "file not found" raised by *applying* the options (password-file / key-file pointing nowhere) is not the "no
+    configuration file" case.  (c) The environment-variable prefix of a backend is its OWN short name."""
+    corpus = ctx.corpus
+    cli, cfgm, mainm = corpus.module('cli'), corpus.module('config'), corpus.module('main')
+    dests = set()
+    for n in ast.walk(cli.tree):
+        if isinstance(n, ast.Call) and isinstance(n.func, ast.Attribute) and n.func.attr == 'add_argument':
+            d = kwarg(n, 'dest')
+            if isinstance(d, ast.Constant):
+                dests.add(d.value)
+                continue
+            longs = [a.value for a in n.args if isinstance(a, ast.Constant) and isinstance(a.value, str) and a.value.startswith('--')]
+            pos = [a.value for a in n.args if isinstance(a, ast.Constant) and isinstance(a.value, str) and not a.value.startswith('-')]
+            if longs:
+                dests.add(longs[0][2:].replace('-', '_'))
+            elif pos:
+                dests.add(pos[0])
+    C = cfgm.classes.get('Config')
+    if C is None:
+        raise AnalysisError('C19.R8: config.Config missing')
+    fields = [st.target.id for st in C.node.body if isinstance(st, ast.AnnAssign) and isinstance(st.target, ast.Name)]
+    ctx.floor('C19.R8', 'fields of config.Config', len(fields), 5)
+    mn = mainm.functions.get('main')
+    read_directly = {a.attr for f in mainm.all_functions for a in ast.walk(f.node) if isinstance(a, ast.Attribute) and isinstance(a.value, ast.Name) and 'cfg' in a.value.id.lower() and isinstance(a.ctx, ast.Load)}
+    for fld in fields:
+        ctx.check(
+            fld in dests or fld in read_directly,
+            'C19.R8',
+            f'replicat/utils/config.py|Config|field-reaches-a-consumer:{fld}',
+            loc(mn, mn.node),
+            f'Config.{fld} is the dest of a command-line option (or read from the config object in main)',
+            f'Config.{fld} is not the dest of any command-line option and main never reads it: the value from the configuration file / environment is installed as a parser default under a name no argument uses and '
+            'no code reads - the option only works from the command line',
+        )
+    # (b)
+    for t in walk_local(mn.node):
+        if not isinstance(t, ast.Try):
+            continue
+        if not any((dotted(c.func) or '').endswith('read_config') for st in t.body for c in ast.walk(st) if isinstance(c, ast.Call)):
+            continue
+        for h in t.handlers:
+            from ..astutil import handler_reraises as _hr
+
+            if _hr(h):
+                continue
+            others = [c for st in t.body for c in ast.walk(st) if isinstance(c, ast.Call) and not (dotted(c.func) or '').endswith('read_config') and not (dotted(c.func) or '').startswith(('logger.', 'logging.'))]
+            ctx.check(
+                not others,
+                'C19.R8',
+                f'{func_label(mn)}|missing-file-handler-covers-the-read-only',
+                loc(mn, h),
+                'main: the handler for a missing configuration file covers read_config() only',
+                f'main: the handler for a missing configuration file also covers `{src(others[0], 50) if others else ""}`: an error raised while the options are applied (a password-file / key-file that does not exist) is '
+                'taken for "no configuration file" - the file\'s options are silently dropped and built-in defaults win',
+            )
+    # (c)
+    base = corpus.cls('base', 'Backend')
+    isc = base.methods.get('__init_subclass__')
+    if isc is not None:
+        ctx.analysed(isc)
+        inherited = [c for c in calls_in(isc.node) if (dotted(c.func) or '') == 'getattr' and c.args and isinstance(c.args[0], ast.Name) and c.args[0].id in ('cls', 'self') and len(c.args) >= 2 and isinstance(c.args[1], ast.Constant) and c.args[1].value in ('short_name', 'display_name')]
+        ctx.check(
+            not inherited,
+            'C19.R8',
+            f'{func_label(isc)}|short-name-is-the-class-own',
+            loc(isc, inherited[0]) if inherited else loc(isc, isc.node),
+            'Backend.__init_subclass__: a backend without a declared short name is named after its own class',
+            f'Backend.__init_subclass__: `{src(inherited[0], 50) if inherited else ""}` looks the name up through inheritance: a backend derived from another one (S3 from S3Compatible) takes over ITS short name - '
+            'the documented environment variables of the derived backend (S3_KEY_ID ..) are no longer read',
+        )
+
+
 def r6_custom_backends(ctx):
     corpus = ctx.corpus
     has_init = 'replicat/backends/__init__.py' in corpus.files
@@ -550,6 +627,7 @@ def r6_custom_backends(ctx):
 
 
 def run(ctx):
+    r8_sources_reach_the_command(ctx)
     r1_order(ctx)
     r2_subparsers(ctx)
     r3_profile(ctx)
